@@ -327,6 +327,10 @@ def write_evidence(ctx, spec, total, discharged, error=None):
                known_findings_reproduced=[k for k, _ in ctx.known_hits])
     if ctx.audit.get("leanchecker"):
         cov["leanchecker"] = ctx.audit["leanchecker"]
+    if cov.get("model_branches"):
+        import common as _common
+        cov["model_branches"] = dict(sorted(cov["model_branches"].items()))
+        cov["model_branches_not_reached"] = _common.branches_not_reached(cov["model_branches"])
     if error:
         cov["error"] = error
     ev = dict(property_id=ctx.pid, tier=ctx.tier, seed=ctx.seed, level="proof", coverage=cov,
